@@ -1735,6 +1735,8 @@ class AEval(dtable.Eval):
         if m == "to_string" and not args and r[0] == "ctor" and getattr(self, "display", None) is not None and m not in self.funcs:
             d_ = self.display(r)
             return ("str", dtable.render([("fmt", ("str", "{}"), (d_,))])) if d_[0] == "float" else d_
+        if m == "to_string" and not args and r[0] == "tok":
+            return ("str", r[1])          # an identifier's text
         if m == "to_string" and not args and r[0] in ("int", "bool"):
             return ("str", str(r[1]) if r[0] == "int" else ("true" if r[1] else "false"))
         if r[0] == "atom" and m in ("clone", "to_owned", "as_ref", "as_mut", "borrow", "borrow_mut", "deref", "into", "cloned", "copied") and not args:
